@@ -3,6 +3,7 @@
    GP designers via TrialToArrayConverter / TrialToModelInputConverter, Eagle via ProblemAndTrialsScaler); the theorems
    are about that common last step.  Gen/Scalers.v is regenerated from converters/core.py on every run. *)
 From VZ Require Import Base.Prelude Model.Space Model.Conv Proofs.SpaceP Proofs.ConvP Gen.Scalers Model.Default Proofs.DefaultP.
+From VZ Require Model.ScaleDispatch Gen.ScaleDispatchSrc Proofs.ScaleDispatchSrcP.
 Close Scope R_scope.
 Open Scope Q_scope.
 
@@ -78,3 +79,11 @@ Example C03_default_nonvacuous :
   default_checked (mkPC [120%N] TDiscrete 0 0 [1 # 2; 3 # 2; 5 # 2] []) None = Ok (RFloat (XF (3 # 2))) /\
   default_checked (mkPC [120%N] TDouble 0 1 [] []) (Some (RFloat (XF 5))) = Err EValue.
 Proof. repeat split; try discriminate; try reflexivity. Qed.
+
+(* a parameter with a single value (lo = hi) is never scaled by dividing through its width: scaler_from_spec, as it is today
+   (Gen/ScaleDispatchSrc.v), shifts the value to 0.5 whatever the scale type, so encoding a completed trial of such a parameter
+   gives a number and the algorithms that learn from the history are not fed 0/0 *)
+Theorem C03_source_singleton_range_is_not_divided : forall lo s,
+  ScaleDispatch.dispatch ScaleDispatchSrc.src_dispatch true true lo lo s = ScaleDispatch.OShiftHalf.
+Proof. exact ScaleDispatchSrcP.src_zero_width_shifts. Qed.
+Print Assumptions C03_source_singleton_range_is_not_divided.
